@@ -6,7 +6,7 @@ from typing import Dict, List, Optional
 
 from ..core import Ctx
 from ..model import dotted, kwarg, norm, walk_no_nested
-from .common import assigned_value, bool_equiv, check_annotator_key, conditions_at, enclosing, expand_locals, pargs, resolve_local
+from .common import assigned_value, bool_equiv, check_annotator_key, check_segment_verbatim, conditions_at, enclosing, expand_locals, pargs, resolve_local
 
 ROLES = ("annotator", "label", "start", "end")
 
@@ -44,6 +44,7 @@ def run(ctx: Ctx):
     M = ctx.model
     # ---------------- writer
     check_annotator_key(ctx, "R-C18-3")
+    check_segment_verbatim(ctx, "R-C18-4")      # "with the file's exact times"
     from .c13 import add_guard_obligation
     add_guard_obligation(ctx, "R-C18-3")      # a discarded row must leave no trace: add() refuses before it writes anything       # every reader inserts through add(): the annotator text of the file is the annotator of the unit
     w = ctx.fn("Continuum.to_csv", "R-C18-1")
